@@ -1,5 +1,6 @@
 import UVerif.Driver.Core
 import UVerif.Driver.Posit
+import UVerif.Driver.Quire
 
 namespace UVerif.Driver
 
@@ -7,6 +8,7 @@ namespace UVerif.Driver
 def lookupHandler (fam : String) : Option Handler :=
   match fam with
   | "posit" => some positHandler
+  | "quire" => some quireHandler
   | _ => none
 
 end UVerif.Driver
